@@ -176,7 +176,8 @@ pub fn c05(st: &Step, v: &mut Verdicts) {
     }
     let Some((_, ret)) = st.key else { return };
     let thr = post.modes[4];
-    if st.post_state == b'E' && (ret == EditorKeyBehavior::Absorb || ret == EditorKeyBehavior::Commit) && post.len > thr {
+    // (both editing states: since the FX3/FX4 repair the auto-commit also runs while a syllable is being entered)
+    if (st.post_state == b'E' || st.post_state == b'Y') && (ret == EditorKeyBehavior::Absorb || ret == EditorKeyBehavior::Commit) && post.len > thr {
         v.push(("C05", format!("chewing_buffer_Len {} > chewing_get_maxChiSymbolLen {} after a handled key", post.len, thr)));
     }
     let tok = st.pre_tok;
